@@ -266,9 +266,17 @@ impl ChunkCache<ChunkCacheTypeDecoded> for ChunkCacheDecodedLruSizeLimit {
     impl_ChunkCacheLruCommon!(ChunkCacheTypeDecoded);
 }
 
+/// Verification probe: a thread-local cache mutex can only be busy if the current thread already holds it.
+#[cfg(zarrs_verif)]
+fn verif_probe_lock<T>(mutex: &Mutex<T>) {
+    crate::storage::verif_hooks::emit("tlcache.lock", &[u64::from(mutex.try_lock().is_err())]);
+}
+
 macro_rules! impl_ChunkCacheLruChunkLimitThreadLocal {
     ($ct:ty) => {
         fn get(&self, chunk_indices: &[u64]) -> Option<Arc<$ct>> {
+            #[cfg(zarrs_verif)]
+            verif_probe_lock(self.cache());
             self.cache()
                 .lock()
                 .unwrap()
@@ -277,6 +285,8 @@ macro_rules! impl_ChunkCacheLruChunkLimitThreadLocal {
         }
 
         fn insert(&self, chunk_indices: ChunkIndices, chunk: Arc<$ct>) {
+            #[cfg(zarrs_verif)]
+            verif_probe_lock(self.cache());
             self.cache().lock().unwrap().push(chunk_indices, chunk);
         }
 
@@ -288,6 +298,8 @@ macro_rules! impl_ChunkCacheLruChunkLimitThreadLocal {
         where
             F: FnOnce() -> Result<Arc<$ct>, ArrayError>,
         {
+            #[cfg(zarrs_verif)]
+            verif_probe_lock(self.cache());
             self.cache()
                 .lock()
                 .unwrap()
@@ -305,6 +317,8 @@ macro_rules! impl_ChunkCacheLruChunkLimitThreadLocal {
 macro_rules! impl_ChunkCacheLruSizeLimitThreadLocal {
     ($ct:ty) => {
         fn get(&self, chunk_indices: &[u64]) -> Option<Arc<$ct>> {
+            #[cfg(zarrs_verif)]
+            verif_probe_lock(self.cache());
             self.cache()
                 .lock()
                 .unwrap()
@@ -313,6 +327,8 @@ macro_rules! impl_ChunkCacheLruSizeLimitThreadLocal {
         }
 
         fn insert(&self, chunk_indices: ChunkIndices, chunk: Arc<$ct>) {
+            #[cfg(zarrs_verif)]
+            verif_probe_lock(self.cache());
             let size = self.size.get_or_default();
             let size_old = size.fetch_add(chunk.size(), atomic::Ordering::SeqCst);
             if size_old + chunk.size() > self.capacity {
